@@ -1,5 +1,166 @@
-(* C15 -- placeholder while the proofs are being written (stage 1). *)
-From Verif Require Import Lib.Base Lib.Sx Lib.Sched Model.WsConc.
-Theorem c15_repo_discipline : ws_safeb write_skel = true /\ ws_safeb ctl_skel = true /\ repo_structure_ok = true.
+(* C15 -- concurrent control frames never corrupt the WebSocket frame stream.
+   Property theorems only; every proof is `exact <lemma>` or a short composition.
+
+   Model (Model/WsConc.v): any number of threads, each a list of operations -- WriteControl
+   (ping/pong/close, optionally with a deadline that expires while waiting for the lock), a data
+   message (prepWrite, then its frames through flushFrame -> Conn.write; a frame takes one or two
+   transport writes), Conn.Close.  The instructions of one frame write are produced from the
+   event skeletons that tools/repo2coq/gen_skel.go extracts from Conn.write and
+   Conn.WriteControl on every run.  A SCHEDULE is an arbitrary list of thread indices
+   (Lib/Sched.v); the transport log [wwire] holds (thread, chunk) in the order the transport
+   received them. *)
+From Coq Require Import String.
+From Verif Require Import Gen.Gen_websocket.
+From Verif Require Import Lib.Base Lib.Sx Lib.Sched Model.WsConc Proofs.WsConc.
+Import List ListNotations.
+Open Scope Z_scope.
+
+Section Generic.
+  (* any skeletons for the data path and the control path that satisfy the decidable discipline
+     ws_safeb: acquire; test the sticky error; the transport writes, a failure made sticky; the
+     close-sent latch; release -- in this order *)
+  Variables (wsk csk : list sev) (progs : list (list wop)) (sched : list nat).
+  Hypothesis Hw : ws_safeb wsk = true.
+  Hypothesis Hc : ws_safeb csk = true.
+  Let s := wrun (winit_ops wsk csk progs) sched.
+
+  Lemma reach : Inv s.
+  Proof. unfold s. apply wrun_inv. now apply winit_ops_inv. Qed.
+
+  (* 1. For every number of senders, every program and EVERY interleaving the wire is a sequence
+     of finished blocks, each the whole frame of one thread -- so a control frame appears only
+     between frames -- or, only after the transport has failed and the failure has been made
+     sticky, a truncated frame; followed by what the current lock holder has written of its
+     frame so far (a prefix of that frame's transport writes). *)
+  Theorem c15_generic_serialised :
+    exists blocks tail,
+      rev (wwire s) = concat (map flat_block blocks) ++ tail /\
+      Forall (block_ok s) blocks /\
+      (tail = [] \/ exists h f p, wlk s = Some h /\ tail = map (pair h) p /\ is_prefix p (chunks_of f)).
+  Proof. exact (serialised s reach). Qed.
+
+  (* ... in particular, while the transport is open the wire is whole frames plus at most the
+     holder's frame in progress, and with the lock free exactly whole frames *)
+  Theorem c15_generic_whole_frames : wtc s = false -> frames_wire (rev (wwire s)).
+  Proof. exact (frames_wire_open s reach). Qed.
+
+  Theorem c15_generic_quiescent : wlk s = None -> wtc s = false ->
+    exists blocks, rev (wwire s) = concat (map flat_block blocks) /\
+                   Forall (fun b => exists f, snd b = chunks_of f) blocks.
+  Proof. exact (quiescent_whole s reach). Qed.
+
+  (* 2. The transport writes of each thread reach the wire in program order, none twice: what
+     thread i has written is a subsequence of the chunk sequence of its program (a failed
+     operation drops its remaining chunks) -- data frames of a message appear in order. *)
+  Theorem c15_generic_order i ops :
+    nth_error progs i = Some ops ->
+    subseq (written_by i (rev (wwire s))) (code_chunks (prog_code wsk csk ops)).
+  Proof.
+    intros H. unfold s, winit_ops. apply order_kept. rewrite nth_error_map, H. reflexivity.
+  Qed.
+
+  (* 3. A whole Close frame among the finished blocks is the newest block, nothing is in progress
+     behind it, the sticky error is set, and no continuation of the run adds anything to the
+     wire. *)
+  Theorem c15_generic_close_last t f :
+    In (t, chunks_of f) (wclosed s) -> is_close f = true -> chunks_of f <> [] ->
+    (exists rest, wclosed s = (t, chunks_of f) :: rest) /\ wopen s = [] /\ werr s <> None /\
+    forall more, wwire (wrun s more) = wwire s.
+  Proof. exact (close_is_last s t f reach). Qed.
+
+  (* 4. Once the sticky error is set (Close sent, or transport failure) nothing further reaches
+     the wire and the error stays, whatever the threads do; *)
+  Theorem c15_generic_sticky more :
+    werr s <> None -> wwire (wrun s more) = wwire s /\ werr (wrun s more) = werr s.
+  Proof. exact (sticky s more reach). Qed.
+
+  (* every later write fails with that error: a thread that reaches prepWrite or the test under
+     the lock takes the error, and the result reported at the end of an operation is the failure
+     it took. *)
+  Theorem c15_generic_later_writes_fail i t e rest ins :
+    nth_error (wths s) i = Some t -> wcode t = ins :: rest -> ins = WPrep \/ ins = WTest ->
+    wfail t = None -> werr s = Some e ->
+    nth_error (wths (wstep s i)) i = Some {| wcode := rest; wfail := Some e |}.
+  Proof. exact (test_fails_after_error s i t e rest ins). Qed.
+
+  Theorem c15_generic_result_reported i t rest :
+    nth_error (wths s) i = Some t -> wcode t = WEnd :: rest -> wres (wstep s i) = (i, wfail t) :: wres s.
+  Proof. exact (end_reports_failure s i t rest). Qed.
+End Generic.
+
+(* THE CODE IN /repo.  The skeletons regenerated from websocket/conn.go satisfy the discipline, and
+   the structural facts the model relies on hold (writeFatal keeps the first error, prepWrite
+   returns the sticky error, flushFrame writes through Conn.write, there is no other transport
+   write site than Conn.write, Conn.WriteControl and the handshake) -- all by computation on the
+   generated values; a source change that breaks one of them makes this theorem fail. *)
+Theorem c15_repo_discipline :
+  ws_safeb write_skel = true /\ ws_safeb ctl_skel = true /\ repo_structure_ok = true.
 Proof. vm_compute. auto. Qed.
+
+Theorem c15_repo progs sched :
+  let s := wrun (winit_ops write_skel ctl_skel progs) sched in
+  (wtc s = false -> frames_wire (rev (wwire s))) /\
+  (forall i ops, nth_error progs i = Some ops ->
+     subseq (written_by i (rev (wwire s))) (code_chunks (prog_code write_skel ctl_skel ops))) /\
+  (forall t f, In (t, chunks_of f) (wclosed s) -> is_close f = true -> chunks_of f <> [] ->
+     (exists rest, wclosed s = (t, chunks_of f) :: rest) /\ wopen s = [] /\ werr s <> None /\
+     forall more, wwire (wrun s more) = wwire s) /\
+  (forall more, werr s <> None -> wwire (wrun s more) = wwire s /\ werr (wrun s more) = werr s).
+Proof.
+  destruct c15_repo_discipline as (Hw & Hc & _). intros s. split; [|split; [|split]].
+  - apply c15_generic_whole_frames; assumption.
+  - intros i ops. apply c15_generic_order; assumption.
+  - intros t f. apply c15_generic_close_last; assumption.
+  - intros more. apply c15_generic_sticky; assumption.
+Qed.
+
+(* non-vacuity: a ping requested while a two-write data frame is between its transport writes,
+   and a Close; the wire is the data frame, the ping, the Close frame, and the message sent
+   afterwards fails with close-sent (result code 1) *)
+Example c15_nonvacuous :
+  let data := {| f_op := 2; f_fin := true; f_len := 60; f_nch := 2 |} in
+  let ping := {| f_op := 9; f_fin := true; f_len := 8; f_nch := 1 |} in
+  let close := {| f_op := 8; f_fin := true; f_len := 10; f_nch := 1 |} in
+  let s := wrun (winit_ops write_skel ctl_skel [[OCtl false ping]; [OCtl false close]; [OMsg [data]; OMsg [data]]])
+                [2; 2; 2; 2; 0; 1; 0; 2; 2; 2; 2; 0; 0; 0; 0; 0; 0; 1; 1; 1; 1; 1; 1; 2; 2; 2; 2; 2; 2; 2; 2]%nat in
+  rev (wwire s) = [(2, (data, 0)); (2, (data, 1)); (0, (ping, 0)); (1, (close, 0))]%nat /\
+  rev (wres s) = [(2, None); (0, None); (1, None); (2, Some e_close_sent)]%nat.
+Proof. vm_compute. auto. Qed.
+
+(* THE PREDICATE IS NOT VACUOUS.  A skeleton that performs the transport writes before taking the
+   lock is rejected, and the bounded search computes an interleaving of one control sender and
+   one two-write data frame after which the wire is not whole frames. *)
+Theorem c15_unlocked_refuted :
+  let bad := [SWrite true; SAcq false; STest; SLatch; SRel] in
+  ws_safeb bad = false /\
+  exists sched, find_cex bad ctl_skel = Some sched /\
+                wtc (wrun (cex_state bad ctl_skel) sched) = false /\
+                ~ frames_wire (rev (wwire (wrun (cex_state bad ctl_skel) sched))).
+Proof.
+  cbv zeta. split; [reflexivity|].
+  destruct (find_cex [SWrite true; SAcq false; STest; SLatch; SRel] ctl_skel) as [sched|] eqn:E;
+    [|vm_compute in E; discriminate].
+  exists sched. split; [reflexivity|]. split.
+  - vm_compute in E. injection E as <-. vm_compute. reflexivity.
+  - now apply find_cex_sound.
+Qed.
+
+(* a skeleton that does not make a transport failure sticky, or tests the error before taking
+   the lock, is rejected as well *)
+Example c15_predicate_rejects :
+  ws_safeb [SAcq false; STest; SWrite false; SLatch; SRel] = false /\
+  ws_safeb [STest; SAcq false; SWrite true; SLatch; SRel] = false /\
+  ws_safeb [SAcq false; STest; SWrite true; SRel; SLatch] = false.
+Proof. vm_compute. auto. Qed.
+
+Print Assumptions c15_generic_serialised.
+Print Assumptions c15_generic_whole_frames.
+Print Assumptions c15_generic_quiescent.
+Print Assumptions c15_generic_order.
+Print Assumptions c15_generic_close_last.
+Print Assumptions c15_generic_sticky.
+Print Assumptions c15_generic_later_writes_fail.
+Print Assumptions c15_generic_result_reported.
 Print Assumptions c15_repo_discipline.
+Print Assumptions c15_repo.
+Print Assumptions c15_unlocked_refuted.
